@@ -1,6 +1,7 @@
 """C03 — event dictionaries resolve to the documented device messages.
 Theorems: coq/Props/C03.v about the model coq/Sched/Event.v (Event.__init__, EventDefaults, Track.perform_event and
-the one-track part of Timeline.tick), with the parameter list and the library defaults regenerated from the source
+the one-track part of Timeline.tick) and its extension coq/Sched/EventCfg.v (the timeline's defaults object as part of the
+state: assignments between ticks, one pull per pattern-valued default and event), with the parameter list and the library defaults regenerated from the source
 (coq/Generated/TablesC03.v).  Correspondence: Event(dict, defaults) attributes and the per-tick device calls of a
 one-track timeline of the repository against the model, inside Coq (vm_compute).  Oracle: a direct Python rendering
 of docs/events/*.md (closed pitch formula, precedence list, synonym table, default chain) judges every
@@ -12,11 +13,11 @@ PROP = "C03"
 EXTRA_GENERATORS = ["gen_tables_c03.py"]
 META = {
  "engine": "S-scheduler",
- "text": "Coq theorems (Props/C03.v, closed under the global context) about an executable model of Event.__init__ / EventDefaults / Track.perform_event (Sched/Event.v, transcribed branch by branch over a small Python-value type; parameter names, ALL_EVENT_PARAMETERS and the library defaults are regenerated from the source on every run): every chord voice of a degree event plays tonic + scale[floor(d) mod n] + octave_size*floor(floor(d)/n) + 12*octave + transpose (negative degrees descend), a note event plays note + 12*octave + transpose; amplitude/gate/channel/duration come from the event (dur, amp, velocity folded), else the timeline defaults' current value, else the generated library default, and a default never overrides an explicit value; the event type is the first present of action > patch > control > program_change > osc_address > synth > note|degree for all 2^7 subsets; control/program-change/OSC/synth/action events emit exactly the matching call; an unknown key, note with degree, or no type key raises and emits no call. The model is tied to the repository on every run: ~4000 (quick) / ~60000 (thorough) generated dictionaries are run through Event(dict, defaults) and through a one-track Timeline with a recording OutputDevice, and the Event attributes, every device call with its tick and arguments, and the escaping exception class are compared with the model inside Coq (vm_compute); an independent oracle written from docs/events judges every implementation result on the documented domain and supplies the failing input.",
+ "text": "Coq theorems (Props/C03.v, closed under the global context) about an executable model of Event.__init__ / EventDefaults / Track.perform_event (Sched/Event.v, transcribed branch by branch over a small Python-value type; parameter names, ALL_EVENT_PARAMETERS and the library defaults are regenerated from the source on every run): every chord voice of a degree event plays tonic + scale[floor(d) mod n] + octave_size*floor(floor(d)/n) + 12*octave + transpose (negative degrees descend), a note event plays note + 12*octave + transpose; amplitude/gate/channel/duration come from the event (dur, amp, velocity folded), else the timeline defaults' current value, else the generated library default, and a default never overrides an explicit value; the event type is the first present of action > patch > control > program_change > osc_address > synth > note|degree for all 2^7 subsets; control/program-change/OSC/synth/action events emit exactly the matching call; an unknown key, note with degree, or no type key raises and emits no call. The model is tied to the repository on every run: ~4000 (quick) / ~60000 (thorough) generated dictionaries are run through Event(dict, defaults) and through a one-track Timeline with a recording OutputDevice, and the Event attributes, every device call with its tick and arguments, and the escaping exception class are compared with the model inside Coq (vm_compute); an independent oracle written from docs/events judges every implementation result on the documented domain and supplies the failing input. Streams of several dictionaries are judged dictionary by dictionary on the documented time grid (a malformed dictionary at ANY position of a stream must raise and play nothing; theorems C03_reject_*_anywhere), and the timeline's defaults are re-assigned between two events of a running track (the defaults in force when a dictionary is due complete it; model Sched/EventCfg.v with the defaults object in its state, theorems C03_current_defaults_complete_the_event, C03_reassigned_default, C03_stream_without_reassignment).",
  "note": "Trusted: Coq kernel + VM; gen_tables.py / gen_tables_c03.py; the Python harness (case encoding, the recording device, first-value substitution for pattern-valued dictionary entries); CPython int semantics (//, % = Z.div/Z.modulo; int(float) truncates). Modelled, not verified: floats are exact rationals in the model (the harness only generates dyadic rationals on the 1/256 grid, where isobar's round(x, 8) comparisons are exact); SignalFlow patch events are classified but not dispatched; the generic-event ('event' method) device path, on_event callbacks, interpolation and str-typed numbers are outside the model (Unmodelled outcome, such cases are discarded and counted).",
 }
 
-HEADER = """From Isobar Require Import Base.Prelude Tonal.Key Generated.Tables Generated.TablesC03 Sched.Event.
+HEADER = """From Isobar Require Import Base.Prelude Tonal.Key Generated.Tables Generated.TablesC03 Sched.Event Sched.EventCfg.
 From Coq Require Import String QArith.
 Local Open Scope Z_scope.
 Definition bscale (name : string) : scale :=
@@ -27,6 +28,7 @@ Definition ovr (l : list (string * val)) : dict := fold_left (fun d kv => dset d
 Definition Vs := VStr.
 Definition Vi := VInt.
 Definition C (t : Z) (m : string) (a : list val) : Z * call := (t, Call m a).
+Definition CH (t : Z) (kvs : list (string * val)) : Z * list (string * val) := (t, kvs).
 (* Event(dict, defaults): the exception class, or Event.type (the other attributes are compared through the device calls) *)
 Definition event_agrees (defs d : dict) (exp_exn : option string) (exp_type : val) : option bool :=
   match resolve defs d, exp_exn with
@@ -205,8 +207,16 @@ def snippet(case):
         lines.append("track = tl.schedule(iso.PSequence([%s], 1))" % ", ".join(pysrc({"d": e}) for e in case["events"]))
     if case.get("muted"):
         lines.append("track.mute()")
+    changes = case.get("changes") or []
+    for at, kvs in changes:
+        if at == -1:
+            for name, v in kvs:
+                lines.append("tl.defaults.%s = %s    # after schedule(), before the first tick" % (name, pysrc(v)))
     lines.append("for t in range(%d):" % case["nticks"])
     lines.append("    n = len(dev.calls); tl.tick(); print(t, dev.calls[n:])")
+    for at, kvs in changes:
+        if at >= 0:
+            lines.append("    if t == %d: %s" % (at, "; ".join("tl.defaults.%s = %s" % (name, pysrc(v)) for name, v in kvs)))
     return "\n".join(lines)
 
 
@@ -358,6 +368,143 @@ def oracle(case, scales, note_names, _probe=False):
         return ("calls", ons + offs, ())
     except LookupError:
         return None
+
+
+def doc_param(ev, defaults, name, synonyms=()):
+    """the documented value of a parameter: the event's (through its synonyms; undetermined when several are given),
+    else the timeline default in force, else the library default.  Raises LookupError when undetermined."""
+    e = dict((k, const(v)) for k, v in ev)
+    given = [k for k in (name,) + tuple(synonyms) if k in e]
+    if len(given) > 1:
+        raise LookupError("several synonyms given")
+    if given:
+        return e[given[0]]
+    td = dict((k, const(v)) for k, v in defaults)
+    if name in td:
+        return td[name]
+    return LIB_DEFAULTS["values"][name]
+
+
+def doc_duration(ev, defaults):
+    """the documented duration of an event (beats, Fraction), None when the documentation does not determine it"""
+    try:
+        d = doc_param(ev, defaults, "duration", ("dur",))
+    except LookupError:
+        return None
+    if isinstance(d, bool) or not (isinstance(d, int) or is_f(d)):
+        return None
+    d = num(d)
+    return d if d > 0 else None
+
+
+def stream_plan(case):
+    """Which timeline defaults are in force for the i-th dictionary of the case's stream, and at which tick it is due, by the
+    documentation: event 0 is due at tick 0, event i+1 one documented duration after event i; an assignment
+    'after tick a' is in force for every event due at a tick > a; a pattern-valued default yields one value per event
+    since it was assigned.  Returns [(tick, defaults), ...], cut where the documentation stops determining the timing."""
+    tpb = case["tpb"]
+    changes = sorted(case.get("changes") or [], key=lambda c: c[0])
+    cur = [[n, v, 0] for n, v in case["defaults"]]        # name, value, values pulled since it was assigned
+    plan, s, applied = [], Fraction(0), 0
+    for i, ev in enumerate(case["events"]):
+        while applied < len(changes) and changes[applied][0] < s:
+            for name, v in changes[applied][1]:
+                hit = [c for c in cur if c[0] == name]
+                if hit:
+                    hit[0][1], hit[0][2] = v, 0
+                else:
+                    cur.append([name, v, 0])
+            applied += 1
+        dfl = [[n, advance(v, k)] for n, v, k in cur]
+        if any(isinstance(v, dict) and "p" in v and not v["p"] for _n, v in dfl):
+            break                                           # an exhausted pattern-valued default: not documented
+        plan.append((int(s), dfl))
+        dur = doc_duration(ev, dfl)
+        if dur is None or (dur * tpb).denominator != 1:
+            break
+        s += dur * tpb
+        for c in cur:
+            c[2] += 1
+    return plan
+
+
+def oracle_stream(case, scales, note_names):
+    """Expected observation of a track that performs SEVERAL dictionaries (a pattern yielding dictionaries), possibly while
+    timeline.defaults is re-assigned between two events: every dictionary is judged on its own by oracle(), against the
+    defaults in force when it is due, and the messages are laid out on the documented time grid.
+    Returns None, or (horizon, expected calls [[tick, method, args]], reject_tick | None): ticks below the horizon are
+    determined by the documentation; when reject_tick is set the dictionary due at that tick must be rejected with an
+    error and nothing of it (or of anything after it) may be played."""
+    if case.get("muted") or case["mode"] != "pseq":
+        return None
+    plan = stream_plan(case)
+    horizon, reject, exp = case["nticks"], None, []
+    for i, ev in enumerate(case["events"]):
+        if i >= len(plan):
+            break
+        s, dfl = plan[i]
+        if s >= case["nticks"]:
+            break
+        one = {"tpb": case["tpb"], "nticks": case["nticks"] - s, "muted": False, "mode": "pseq", "defaults": dfl, "events": [ev]}
+        o = oracle(one, scales, note_names)
+        if o is None or (o[0] == "calls" and o[1] is None):
+            horizon = s
+            break
+        if o[0] == "calls" and doc_duration(ev, dfl) is None:
+            horizon = s                                     # a dictionary whose duration is not a documented one: not judged
+            break
+        if o[0] == "reject":
+            horizon, reject = s, s
+            break
+        exp.extend([[t + s, m, a] for t, m, a in o[1]])
+        try:
+            active = doc_param(ev, dfl, "active")
+        except LookupError:
+            active = None
+        inactive = not (active is True or (type(active) is int and active == 1))
+        if i + 1 < len(case["events"]) and (i + 1 >= len(plan) or inactive):
+            horizon = s + 1                                 # when the next dictionary is due is not documented
+            break
+    exp = [x for x in exp if x[0] < horizon]
+    return (horizon, exp, reject)
+
+
+def by_tick(trace, horizon):
+    """per tick: the calls other than note_off in order, and the note_offs as a sorted multiset (the documentation does
+    not order the note-offs of one tick)"""
+    out = {}
+    for t, m, a in trace:
+        if t < horizon:
+            slot = out.setdefault(t, ([], []))
+            if m == "note_off":
+                slot[1].append(json.dumps(a, sort_keys=True))
+            else:
+                slot[0].append([t, m, a])
+    for t in out:
+        out[t][1].sort()
+    return out
+
+
+def judge_stream(case, res, exp):
+    """(kind, why) when the observation contradicts the documented stream, else None"""
+    horizon, calls, reject = exp
+    raise_at = res.get("raise_at")
+    if res["raise"] is not None and raise_at is not None and raise_at < horizon:
+        return ("unexpected-exception", "%s escaped from tick %d, where every dictionary due so far is a documented one" % (res["raise"], raise_at))
+    got, want = by_tick(res["trace"], horizon), by_tick(calls, horizon)
+    for t in sorted(set(got) | set(want)):
+        g, w = got.get(t, ([], [])), want.get(t, ([], []))
+        if not trace_eq(g[0], w[0]):
+            kind = "wrong-calls" if [x[1] for x in g[0]] == [x[1] for x in w[0]] else "wrong-method"
+            return (kind, "tick %d: device calls %r differ from the documented ones %r" % (t, g[0], w[0]))
+        if g[1] != w[1]:
+            return ("wrong-calls", "tick %d: note_offs %r differ from the documented ones %r" % (t, g[1], w[1]))
+    if reject is not None:
+        played = [x for x in res["trace"] if x[0] >= reject and x[1] != "note_off"]
+        if res["raise"] is None or played:
+            return ("not-rejected", "the dictionary due at tick %d must be rejected with an error and nothing of it played; "
+                                    "observed exception %r, calls from that tick on %r" % (reject, res["raise"], played))
+    return None
 
 
 def venc_eq(a, b):
@@ -740,6 +887,117 @@ class Gen:
         return ev, "bad-value." + which
 
 
+    # ---- stream E: a stream of several dictionaries in which a LATER one is malformed -----------------------------
+    def plain(self, ev):
+        """a dictionary as a pattern of dictionaries yields it: entries are values, not patterns (action args excepted)"""
+        return [[k, (v if k == "args" else const(v))] for k, v in ev]
+
+    def valid_event(self, note_share=0.7):
+        r = self.rng
+        if r.random() < note_share:
+            ev, _s = self.note_event(want_pattern_entries=False)
+            return ev
+        return self.plain(self.typed_event(r.choice([1, 4, 8, 16, 32, 5, 12]), "none"))
+
+    def padded(self, defaults, n):
+        """pattern-valued defaults long enough for n events"""
+        return [[nm, (P(*(v["p"] + [v["p"][0]] * (n + 2))) if has_pattern(v) else v)] for nm, v in defaults]
+
+    def late_malformed(self):
+        r = self.rng
+        before = r.choice([0, 1, 1, 1, 2, 2, 3])
+        evs = [self.valid_event() for _ in range(before)]
+        while True:
+            bad, kind = self.malformed()
+            if kind in ("unknown-key", "note+degree", "no-type"):
+                break
+        evs.append(self.plain(bad))
+        after = r.choice([0, 0, 1])
+        for _ in range(after):
+            evs.append(self.valid_event())
+        defaults = self.padded(self.default_overrides(0.2) if r.random() < 0.5 else [], len(evs))
+        case = self.finish(evs, defaults, mode="pseq")
+        return case, ["late-malformed." + kind, "late-malformed.position%d" % before, "late-malformed.followed-by%d" % after]
+
+    # ---- stream F: timeline.defaults re-assigned while the track is running ---------------------------------------
+    DEFAULTABLE = ("octave", "transpose", "key", "amplitude", "amp", "velocity", "gate", "channel")
+
+    def reconfigured(self):
+        r = self.rng
+        tpb = 4
+        mk = {"amplitude": self.amp_value, "gate": self.gate_value, "channel": self.chan_value,
+              "duration": self.dur_value, "octave": lambda: r.randint(-1, 7), "transpose": lambda: r.randint(-12, 12),
+              "key": lambda: self.key_value(), "active": lambda: r.choice([True, 1, False, 0])}
+        k = r.choice([2, 2, 3, 3, 4])
+        defaults = [[n, (const(v) if n == "duration" else v)] for n, v in self.default_overrides(0.25)]
+        defaults = self.padded(defaults, 2 * k)
+        cur_dur = dict((n, v) for n, v in defaults).get("duration", 1)
+        evs, changes, strata = [], [], []
+
+        def assignment(n_events_left):
+            names = r.sample(["amplitude", "gate", "channel", "duration", "octave", "transpose", "key"], r.choice([1, 1, 2, 3]))
+            if r.random() < 0.05:
+                names.append("active")
+            kvs = []
+            for nm in names:
+                v = mk[nm]()
+                if nm == "amplitude" and r.random() < 0.1:
+                    v = T(*[self.amp_value() for _ in range(r.randint(2, 3))])
+                if nm not in ("duration", "active") and r.random() < 0.15:
+                    v = P(v, *[mk[nm]() for _ in range(n_events_left + 2)])
+                kvs.append([nm, v])
+                strata.append("reconfigured." + nm + (".pattern" if has_pattern(v) else ".const"))
+            return kvs
+        if r.random() < 0.2:
+            kvs = assignment(k)
+            changes.append([-1, kvs])
+            strata.append("reconfigured.after-schedule-before-first-tick")
+            cur_dur = dict((n, v) for n, v in kvs).get("duration", cur_dur)
+        base = []
+        for j in range(k):
+            ev = self.valid_event(0.75)
+            # most parameters are left to the defaults, so that the defaults in force are what decides the message
+            ev = [kv for kv in ev if kv[0] not in ("dur", "duration") and not (kv[0] in self.DEFAULTABLE and r.random() < 0.55)]
+            if r.random() < 0.5:
+                ev.append([r.choice(["duration", "duration", "dur"]), self.dur_value()])
+            r.shuffle(ev)
+            base.append(dedupe(ev))
+        # sometimes the stream yields the SAME dictionary objects a second time (PSequence(dicts, 2)): the second pass is
+        # completed by the defaults then in force, not by what the first pass found
+        reps = 1
+        if k <= 3 and r.random() < 0.25 and not any(has_pattern(v) for ev in base for _k, v in ev):
+            reps = 2
+            strata.append("reconfigured.replayed-dicts")
+        evs = base * reps
+        n = len(evs)
+        forced_gap = r.randrange(n - 1)                     # at least one re-assignment falls between two events
+        s = 0
+        for j, ev in enumerate(evs):
+            given = [v for kk, v in ev if kk in ("dur", "duration")]
+            d = given[0] if given else cur_dur
+            s_next = s + int(num(d) * tpb)
+            if j < n - 1 and (j == forced_gap or r.random() < 0.3):
+                at = r.randint(s, s_next - 1)
+                kvs = assignment(n - 1 - j)
+                changes.append([at, kvs])
+                strata.append("reconfigured.between-events")
+                if at > s:
+                    strata.append("reconfigured.while-a-note-may-sound")
+                cur_dur = dict((nm, v) for nm, v in kvs).get("duration", cur_dur)
+            s = s_next
+        evs = [dedupe(ev) for ev in evs]
+        for ev in evs:
+            for _k, v in ev:
+                if notation_like(v):
+                    raise CheckError("generator emitted a string the notation parser would take: %r" % (v,))
+        case = {"tpb": tpb, "nticks": min(80, s + 8), "muted": False, "mode": "pseq", "defaults": defaults,
+                "events": evs, "direct": evs[0], "changes": changes}
+        if reps > 1:
+            case["replay_period"] = k
+        strata.append("reconfigured.events%d" % n)
+        return case, strata
+
+
 NOTATION = re.compile(r"^(\[|\]|-?[0-9]+(\.[0-9]+)?\b|[a-g]#?[0-9]\b)")
 
 
@@ -829,6 +1087,15 @@ def generate(run, scales, note_names, n_total):
         if reps > 1:
             case["replay_period"] = k
         add(case, "sequence", ["sequence.%d" % k] + (["sequence.replayed-dicts.x%d" % reps] if reps > 1 else []))
+    # E: a later dictionary of a stream is malformed (the rejection clause holds for every dictionary, not the first only)
+    for _ in range(max(40, int(n_total * 0.03))):
+        case, strata = g.late_malformed()
+        add(case, "late-malformed", strata)
+    # F: timeline.defaults re-assigned between two events of a running track (the defaults in force when a dictionary
+    #    is due are the ones that complete it)
+    for _ in range(max(40, int(n_total * 0.035))):
+        case, strata = g.reconfigured()
+        add(case, "reconfigured", strata)
     run.cov["type_key_subsets_reached"] = "%d of 128 subsets of {action, patch, control, program_change, osc_address, synth, note|degree}" % len({(m, s != "none") for m, s in subsets_seen})
     return cases
 
@@ -843,6 +1110,12 @@ def model_events(case):
             d = ev
         out.append(([[n, advance(v, i)] for n, v in case["defaults"]], d))
     return out
+
+
+def cfg_term(c, fn, tail=""):
+    chs = lst(["CH %s %s" % (zlit(at), dlit(kvs)) for at, kvs in sorted(c["changes"], key=lambda x: x[0])])
+    return "%s %d %s %s %s %s %s %s" % (fn, c["tpb"], blit(c["muted"]), natlit(c["nticks"]), defs_lit(c["defaults"]), chs,
+                                        lst([dlit(ev) for ev in c["events"]]), tail)
 
 
 def run_cases(run, cases, scales, note_names):
@@ -901,8 +1174,30 @@ def run_cases(run, cases, scales, note_names):
                     "observed": {"trace": res["trace"], "raise": res["raise"], "event": res["event"]},
                     "why": why, "oracle": "docs/events rendering (closed pitch formula, precedence list, synonym table, default chain)",
                     "python": snippet(c)})
+        # ---- oracle for streams of several dictionaries / re-configured timelines -----------------------------------
+        if exp is None and c["mode"] == "pseq" and (len(c["events"]) > 1 or c.get("changes")):
+            sexp = oracle_stream(c, scales, note_names)
+            if sexp is not None and (sexp[0] > 0 or sexp[2] is not None):
+                run.cov["oracle_evaluations"] += 1
+                run.cov["stream_oracle_evaluations"] = run.cov.get("stream_oracle_evaluations", 0) + 1
+                if sexp[2] is not None and sexp[2] > 0:
+                    run.cov["later_dictionary_rejections_judged"] = run.cov.get("later_dictionary_rejections_judged", 0) + 1
+                plan = stream_plan(c)
+                if any(at >= 0 and any(at < s_ < sexp[0] + (1 if sexp[2] is not None else 0) for s_, _d in plan) for at, _kvs in (c.get("changes") or [])):
+                    run.cov["events_judged_after_reassigned_defaults"] = run.cov.get("events_judged_after_reassigned_defaults", 0) + 1
+                verdict = judge_stream(c, res, sexp)
+                if verdict:
+                    c["oracle_failed"] = True
+                    run.violation({"kind": verdict[0], "site": "Event/perform_event", "stream": c["stream"]}, {
+                        "case": {k: c[k] for k in ("tpb", "nticks", "muted", "mode", "defaults", "events", "direct", "changes", "replay_period") if k in c},
+                        "expected": {"documented_until_tick": sexp[0], "calls": sexp[1],
+                                     "rejected_at_tick": sexp[2]},
+                        "observed": {"trace": res["trace"], "raise": res["raise"], "raise_at": res.get("raise_at")},
+                        "why": verdict[1], "oracle": "docs/events rendering applied to every dictionary of the stream with the timeline defaults in force "
+                                                     "when it is due, laid out on the documented time grid",
+                        "python": snippet(c)})
         # ---- oracle for replayed dictionaries: every pass over the same dictionary objects performs the same messages ----
-        if c.get("replay_period") and res["raise"] is None and c["nticks"] < 80 \
+        if c.get("replay_period") and res["raise"] is None and c["nticks"] < 80 and not c.get("changes") \
                 and not any(has_pattern(v) for _n, v in c["defaults"]):
             run.cov["oracle_evaluations"] += 1
             reps = len(c["events"]) // c["replay_period"]
@@ -925,6 +1220,10 @@ def run_cases(run, cases, scales, note_names):
         evs = lst(["(%s, %s)" % (defs_lit(dfl), dlit(d)) for dfl, d in me])
         t2 = "track_agrees %d %s %s %s %s %s" % (c["tpb"], blit(c["muted"]), natlit(c["nticks"]), evs,
                                                  optlit(res["raise"], slit), trace_lit(res["trace"]))
+        if c.get("changes"):
+            # the timeline is re-configured while the track runs: the model keeps the defaults object in its state and
+            # works out itself which dictionary is due under which defaults (Sched/EventCfg.v)
+            t2 = cfg_term(c, "cfg_agrees", "%s %s" % (optlit(res["raise"], slit), trace_lit(res["trace"])))
         for t, what in ((t1, "Event"), (t2, "timeline")):
             terms.append("ob (%s)" % t)
             meta.append((ci, what, "agree"))
@@ -955,7 +1254,7 @@ def run_cases(run, cases, scales, note_names):
         run.violation({"kind": "correspondence", "site": what, "stream": c["stream"]}, {
             "broken": "correspondence model/implementation on %s (the theorems of Props/C03.v speak about Sched/Event.v, which no longer "
                       "describes this code on the input below; the input is outside the domain the documentation-oracle judges)" % what,
-            "case": {k: c[k] for k in ("tpb", "nticks", "muted", "mode", "defaults", "events", "direct")},
+            "case": {k: c[k] for k in ("tpb", "nticks", "muted", "mode", "defaults", "events", "direct", "changes", "replay_period") if k in c},
             "observed": {"trace": res["trace"], "raise": res["raise"], "event": res["event"]},
             "coq_term": terms[i][:3000], "python": snippet(c)}, found_input=False)
     agree_terms = sum(1 for m in meta if m[2] == "agree")
@@ -1007,7 +1306,9 @@ def check(run):
     run.cov["rule"] = ("one case = one track of 1-3 event dictionaries with timeline-default overrides, run through Event(dict, defaults) "
                        "and through a one-track Timeline (4 ticks per beat) with a recording OutputDevice; streams: note events (product of "
                        "degree/note x key x octave x transpose x chord shape x per-voice tuples x synonyms x default overrides x pattern entries), "
-                       "every subset of the six type keys x {none, note, degree, both}, malformed dictionaries, sequences of 2-3 dictionaries; "
+                       "every subset of the six type keys x {none, note, degree, both}, malformed dictionaries, sequences of 2-3 dictionaries, "
+                       "streams whose k-th dictionary (k = 0..3) is malformed, streams of 2-6 dictionaries during which timeline.defaults.<name> is "
+                       "re-assigned between two ticks (also between schedule() and the first tick, constants and patterns, replayed dictionary objects); "
                        "distinct by the encoded case; non-trivial = the device received at least one call or an exception escaped")
 
 
@@ -1027,7 +1328,13 @@ def replay(run, doc):
     print("documented:", json.dumps(exp))
     me = model_events(case)
     evs = lst(["(%s, %s)" % (defs_lit(dfl), dlit(d)) for dfl, d in me])
-    print("model:", run.coq_eval(HEADER, "run_track %d %s %s %s" % (case["tpb"], blit(case["muted"]), natlit(case["nticks"]), evs)))
+    if case.get("changes"):
+        print("documented (stream):", json.dumps(oracle_stream(case, scales, note_names)))
+        print("model:", run.coq_eval(HEADER, cfg_term(case, "run_cfg")))
+    else:
+        if case["mode"] == "pseq":
+            print("documented (stream):", json.dumps(oracle_stream(case, scales, note_names)))
+        print("model:", run.coq_eval(HEADER, "run_track %d %s %s %s" % (case["tpb"], blit(case["muted"]), natlit(case["nticks"]), evs)))
     before = len(run.violations)
     run_cases(run, [case], scales, note_names)
     return 1 if len(run.violations) > before else 0
